@@ -111,6 +111,7 @@ func runC16(w *World, r *Report, tier string) {
 	ruleNoOrderDep(w, r, nil)
 	ruleMapLoopCommutative(w, r, nil)
 	ruleNoSkip(w, r, "integrate.MergeExtendedSpatialIds")
+	ruleUnitZoom(w, r)
 	ruleCacheKey(w, r, nil)
 	ruleOverlapAlign(w, r) // establishes the singleton exemption of NOORDERDEP
 	ruleNonDetSources(w, r)
